@@ -76,12 +76,14 @@ def main():
                                    demo_fails_with_patch=rc_demo != 0, demo_passes_on_clean_tree=rc_clean == 0, valid_seed=valid),
                     check_cmd=f"VERIF_REPO=<worktree with patch> ./check {prop} --skip-mc",
                     check_result=dict(verdict=verdict, rejected_events=rejected, reasons=whys))
-        out_dir = f"/verif/seeded/{prop}-{i}"
+        off = int(os.environ.get("SEED_OFFSET", "0"))
+        label = str(int(i) + off) if i.isdigit() else i
+        out_dir = f"/verif/seeded/{prop}-{label}"
         os.makedirs(out_dir, exist_ok=True)
         shutil.copy(os.path.join(d, "patch.diff"), out_dir)
         shutil.copy(os.path.join(d, "demo_test.go"), out_dir)
         json.dump(meta, open(os.path.join(out_dir, "meta.json"), "w"), indent=1)
-        results.append((i, f"valid_seed={valid} build={rc_build == 0} tests={rc_tests == 0} demo_fails={rc_demo != 0} clean_ok={rc_clean == 0} -> {verdict} rejected={rejected} {whys}"))
+        results.append((label, f"valid_seed={valid} build={rc_build == 0} tests={rc_tests == 0} demo_fails={rc_demo != 0} clean_ok={rc_clean == 0} -> {verdict} rejected={rejected} {whys}"))
         if rc_check == 2:
             results.append((i, "check output tail: " + out_check[-600:]))
     sh("git checkout -q -- . && git clean -fdq -e out", wt)
